@@ -124,7 +124,7 @@ Section WithSort.
     mk_tx (tx_other tx) (gosort _ in_less_p (tx_in tx)) (gosort _ out_less_p (tx_out tx)).
 
   (* Sort: the argument is not part of the result; `next` is the allocation counter *)
-  Definition sort (next : N) (tx : msgtx) : msgtx := inplace_sort (tx_copy next tx).
+  Definition sort_tx (next : N) (tx : msgtx) : msgtx := inplace_sort (tx_copy next tx).
 End WithSort.
 
 Definition is_sorted (tx : msgtx) : bool :=
